@@ -56,12 +56,12 @@ def _const_expr(F, c):
         v = c.get("value")
         if "promoted" in c:
             return ("promoted", c["path"], c["promoted"])
-        if v is not None and v.get("k") == "val":
-            return ("cpath", c["path"], v["v"])
         ty = F.ty(c.get("ty")) if c.get("ty") is not None else None
+        if v is not None and v.get("k") == "val":
+            return ("cpath", c["path"], v["v"], ty["s"] if ty else None)
         if ty is not None and ty["k"] == "array":
             return ("table", c["path"])
-        return ("cpath", c["path"], None)
+        return ("cpath", c["path"], None, ty["s"] if ty else None)
     if k == "fn":
         return ("fn", c["path"])
     if k == "zst":
@@ -84,6 +84,82 @@ class Sym:
         self.nparams = body.mir["arg_count"]
         self._prom = {}
         self.enums = {}  # ('discr', e) -> (enum path, {discriminant: variant name})
+        self.field_ty = {}  # ('field', place, i) -> type id (from MIR place projections)
+
+    # ---------------------------------------------------------- types of raw expressions
+    def type_of(self, e, depth=0):
+        """Type JSON of a raw (un-normalised) expression, or None."""
+        F = self.F
+        if depth > 40 or not isinstance(e, tuple) or not e:
+            return None
+        k = e[0]
+        if k == "param" or k == "lv" or k == "local":
+            if self.b.mir and e[1] < len(self.b.mir["locals"]):
+                return F.ty(self.b.mir["locals"][e[1]]["ty"])
+            return None
+        if k == "val":
+            return self.type_of(e[1], depth + 1)
+        if k == "call" and isinstance(e[1], int):
+            t = self.b.blocks[e[1]]["term"]
+            d = t.get("dst")
+            if d is not None and "p" not in d:
+                return F.ty(self.b.mir["locals"][d["l"]]["ty"])
+            return None
+        if k == "cast":
+            return {"k": "prim" if e[2] in ("u8", "u16", "u32", "u64", "usize", "i8", "i16", "i32", "i64", "isize", "f32", "f64", "bool") else "other", "s": e[2]}
+        if k == "load" or k == "mutated":
+            if k == "mutated" and not isinstance(e[1], tuple):
+                return self.type_of(("lv", e[1]), depth + 1)
+            return self.type_of(e[1], depth + 1)
+        if k == "deref":
+            t = self.type_of(e[1], depth + 1)
+            if t and t.get("k") in ("ref", "ptr"):
+                return F.ty(t["to"])
+            return None
+        if k == "ref":
+            return None
+        if k == "field":
+            if e in self.field_ty:
+                return F.ty(self.field_ty[e])
+            bt = self.type_of(e[1], depth + 1)
+            if bt is None:
+                return None
+            if bt.get("k") == "tuple" and e[2] < len(bt["elems"]):
+                return F.ty(bt["elems"][e[2]])
+            if e[1][0] == "variant" and bt.get("k") == "adt":
+                args = [a for a in bt.get("args", []) if a.get("k") == "ty"]
+                if bt["path"].endswith("option::Option") and e[1][2] == "Some" and args:
+                    return F.ty(args[0]["ty"])
+                if bt["path"].endswith("result::Result") and len(args) == 2:
+                    return F.ty(args[0 if e[1][2] == "Ok" else 1]["ty"])
+                if bt["path"].endswith("ops::ControlFlow") and len(args) == 2:
+                    return F.ty(args[1 if e[1][2] == "Continue" else 0]["ty"])
+            return None
+        if k == "variant":
+            return self.type_of(e[1], depth + 1)
+        if k in ("index", "cindex"):
+            bt = self.type_of(e[1], depth + 1)
+            if bt and bt.get("k") in ("array", "slice"):
+                return F.ty(bt["elem"])
+            if e[1][0] == "table":
+                c = F.consts.get(e[1][1])
+                if c:
+                    t = F.ty(c["ty"])
+                    if t.get("k") == "array":
+                        return F.ty(t["elem"])
+            return None
+        if k == "table":
+            c = F.consts.get(e[1])
+            return F.ty(c["ty"]) if c else None
+        if k == "cpath" and len(e) > 3 and e[3]:
+            return {"k": "prim", "s": e[3]}
+        if k == "bin":
+            if e[1] in ("Eq", "Ne", "Lt", "Le", "Gt", "Ge"):
+                return {"k": "prim", "s": "bool"}
+            return self.type_of(e[2], depth + 1) or self.type_of(e[3], depth + 1)
+        if k == "un":
+            return self.type_of(e[2], depth + 1)
+        return None
 
     def variant(self, discr_expr, value):
         """Variant name selected by switch value `value` on `discr_expr` (raw, un-normalised)."""
@@ -148,6 +224,8 @@ class Sym:
                 e = ("proj", e, p)
             elif "f" in p:
                 e = ("field", e, p["f"])
+                if p.get("ty") is not None:
+                    self.field_ty[e] = p["ty"]
             elif "idx" in p:
                 e = ("index", e, self.read(env, {"l": p["idx"]}))
             elif "cidx" in p:
